@@ -598,6 +598,240 @@ def gen_case(rng, stats):
     return case
 
 
+# ----------------------------------------------------------------------------- deterministic stress catalogue
+def _mat(r, c, k):
+    """a fixed r x c matrix of small integers"""
+    return [[((3 * a + 5 * b + 2 * k + a * b) % 5) - 2 for b in range(c)] for a in range(r)]
+
+
+def _vec(n, k):
+    return [((2 * a + 3 * k + 1) % 7) - 3 for a in range(n)]
+
+
+class CaseBuilder:
+    """writes the same case description as gen_case, from explicit choices"""
+    def __init__(self):
+        self.sigs, self.sources, self.mods = [], {}, []
+
+    def sig(self, shape, dyad=0):
+        self.sigs.append(dict(shape=list(shape), dyad=1) if dyad else dict(shape=list(shape)))
+        return len(self.sigs) - 1
+
+    def src(self, shape, dyad=0):
+        s = self.sig(shape, dyad)
+        self.sources[str(s)] = _vec(size_of(shape), s)
+        return s
+
+    def ref(self, s, *index):
+        return dict(sig=s, levels=[to_level(ix) for ix in index] or None)
+
+    def vshape(self, r):
+        return tuple(ref_positions(tuple(self.sigs[r['sig']]['shape']), r['levels'] or [])[1])
+
+    def mod(self, kind, ins, oshapes, odyad=None, **extra):
+        ins = [self.ref(r) if isinstance(r, int) else r for r in ins]
+        m = dict(kind=kind, ins=ins, oshapes=[list(sh) for sh in oshapes], **extra)
+        m['outs'] = [self.sig(sh, (odyad or [0] * len(oshapes))[i]) for i, sh in enumerate(oshapes)]
+        self.mods.append(m)
+        return m['outs'][0] if len(m['outs']) == 1 else m['outs']
+
+    def lin(self, ins, oshapes, odyad=None, emit=None, decomp='rows'):
+        ins = [self.ref(r) if isinstance(r, int) else r for r in ins]
+        k = len(self.mods)
+        blocks = [[o, i, _mat(size_of(osh), size_of(self.vshape(r)), k + o + 2 * i)]
+                  for o, osh in enumerate(oshapes) for i, r in enumerate(ins)]
+        extra = dict(emit=emit, decomp=decomp) if emit else {}
+        return self.mod('lin', ins, oshapes, odyad, none=[0] * len(ins), blocks=blocks, **extra)
+
+    def bilin(self, r, p, emit=1, scalar=False):
+        r = self.ref(r) if isinstance(r, int) else r
+        n, m = self.vshape(r)
+        k = len(self.mods)
+        return self.mod('bilin', [r], [[] if scalar else [p]], U=_mat(p, n, k + 1), V=_mat(p, m, k + 3), emit=[emit])
+
+    def sandwich(self, r, p, q, odyad=0):
+        r = self.ref(r) if isinstance(r, int) else r
+        n, m = self.vshape(r)
+        k = len(self.mods)
+        return self.mod('sandwich', [r], [[p, q]], [odyad], A=_mat(p, n, k), B=_mat(m, q, k + 2))
+
+    def case(self, seeds, tree=None, net=None, seed_uv=None):
+        c = dict(signals=copy.deepcopy(self.sigs), sources=dict(self.sources), modules=copy.deepcopy(self.mods),
+                 tree=list(range(len(self.mods))) if tree is None else tree,
+                 seeds={str(k): list(v) for k, v in seeds.items()})
+        if net:
+            c['net'] = net
+        if seed_uv:
+            c['seed_uv'] = {str(k): v for k, v in seed_uv.items()}
+            for k, uv in seed_uv.items():
+                c['seeds'][str(k)] = [int(x) for x in sum(np.outer(u, v) for u, v in uv).ravel()]
+        return c
+
+
+A_ = lambda *v: np.array(v)
+B_ = lambda *v: np.array(v, dtype=bool)
+S_ = slice
+INDEX_CATALOGUE = {
+    (5,): [(S_(1, 4),), ([0, 3],), (2,), (A_(4, 0, -2),), ([4, 0],), (A_([0, 1], [3, 4]),), ((S_(None, None, 2),),),
+           (([0, 3],),), ((2,),), ((-1,),), ((B_(1, 0, 1, 1, 0),),), ((Ellipsis, 1),), ((S_(0, 3), Ellipsis),),
+           ((None, S_(1, 5)),), ((S_(None), None),), (Ellipsis,), (S_(1, 5), [0, 2]), (S_(4, 0, -1), S_(0, 2)),
+           (B_(0, 1, 1, 0, 1),)],
+    (3, 4): [((1, 2),), ((-1, -4),), ((0, S_(1, 3)),), ((S_(None), 2),), ((S_(0, 2), S_(1, 4, 2)),),
+             ((S_(None), [0, 2]),), ((S_(None), A_(3, 1)),), (([0, 2], S_(None)),), ((1, [0, 3]),), (([2, 0], 1),),
+             (([0, 1, 2], [1, 3, 0]),), ((A_(0, 2), A_(1, -1)),), (([[0], [2]], [[1, 3]]),),
+             ((A_([0], [2]), A_([3, 0, 1])),), ((S_(None), B_(1, 0, 1, 1)),), ((B_(1, 0, 1), S_(None)),),
+             ((B_(1, 0, 1), [0, 3]),), (B_([1, 0, 0, 1], [0, 0, 1, 0], [1, 1, 0, 0]),), ((Ellipsis, 1),),
+             ((2, Ellipsis),), ((Ellipsis, [0, 2]),), ((S_(None), None, 1),), ((None, 1, 2),), ((1,),), ((S_(0, 2),),),
+             (([0, 2],),), (1,), ([0, 2],), (A_(2, 0),), (B_(0, 1, 1),), (-1, S_(None, None, -1)),
+             ((S_(0, 2), S_(None)), (S_(None), [0, 3])), (1, [0, 2]), ((S_(None), S_(1, 4)), (1, 2)),
+             ((S_(None, None, -1), S_(None, None, 2)), ([1, 0], [0, 1])), ((S_(1, 3), S_(0, 3)), B_([1, 0, 1], [0, 1, 1]))],
+    (2, 3, 2): [((1, 2, 0),), ((0, S_(None), 1),), (([0, 1], S_(None), [1, 0]),), ((S_(None), [0, 2], [1, 0]),),
+                ((1, [0, 2], S_(None)),), ((Ellipsis, 0),), ((0, Ellipsis, 1),), ((S_(None), B_(1, 0, 1), S_(None)),),
+                (([1], [2], [0]),), ((S_(None), S_(1, 3), S_(None)), ([0, 1], 0, [1, 1])), (1,), ((1, 2),),
+                (B_([[1, 0], [0, 0], [0, 1]], [[0, 0], [1, 1], [0, 0]]),), (([[0], [1]], S_(None), [[1, 0]]),),
+                ((S_(None), None, [2, 0], 1),)],
+}
+
+
+def stress_cases():
+    """deliberately chosen cases that run on every seed: every print_timing value x construction form on networks of
+    depth >= 2 (flat and nested), every index form of the catalogue on 1-, 2-, 3-dimensional signals inside a
+    fan-out/fan-in network, and DyadCarrier-valued sensitivities handed through / transformed / accumulated later"""
+    out = []
+
+    # ---- print_timing / construction forms: x -> a -> b -> f with a second path x -> f
+    def chain():
+        b = CaseBuilder()
+        x = b.src((3,))
+        a = b.lin([x], [(2,)])
+        q = b.mod('sq', [a], [(2,)])
+        f = b.lin([q, x], [(1,)])
+        return b, f
+    for pt in [True, 0.0, 10.0, 0, 1e9, False]:
+        for ctor in ['args', 'list', 'tuple', 'append', 'call', 'split']:
+            b, f = chain()
+            out.append((f'timing:flat:{pt!r}:{ctor}', b.case({f: [1]}, net=dict(print_timing=pt, ctor=ctor))))
+        for ctor in ['args', 'append']:
+            b, f = chain()
+            out.append((f'timing:inner:{pt!r}:{ctor}', b.case({f: [2]}, tree=[dict(mods=[0, 1], print_timing=pt, ctor=ctor), 2])))
+            b, f = chain()
+            out.append((f'timing:outer-of-nested:{pt!r}:{ctor}', b.case({f: [1]}, tree=[[0], [1, 2]], net=dict(print_timing=pt, ctor=ctor))))
+            b, f = chain()
+            out.append((f'timing:both:{pt!r}:{ctor}',
+                        b.case({f: [1]}, tree=[dict(mods=[0, dict(mods=[1], print_timing=True)], print_timing=pt, ctor=ctor),
+                                               dict(mods=[2], print_timing=pt)], net=dict(print_timing=pt))))
+
+    # ---- index forms: a = L1 U[idx_k], b = L2 U, c = L3 U[idx_k+1], f = L4 (a, b, c)
+    for shape, cat in INDEX_CATALOGUE.items():
+        for k, chain_ in enumerate(cat):
+            b = CaseBuilder()
+            u = b.src(shape)
+            r1, r2 = b.ref(u, *chain_), b.ref(u, *cat[(k + 1) % len(cat)])
+            a = b.lin([r1], [(2,)])
+            w = b.lin([u], [(2,)])
+            c = b.lin([r2, r1], [(1,)])
+            f = b.lin([a, w, c], [(1,)])
+            name = f"index:{'x'.join(map(str, shape))}:{k}"
+            for r in (r1, r2):
+                if not admissible(shape, r['levels']):
+                    raise ValueError(f'stress catalogue entry outside the admissible domain: {name}')
+            out.append((name, b.case({f: [1], a: [1, -1]}, net=dict(print_timing=10.0) if k % 4 == 0 else None)))
+
+    # ---- DyadCarrier-valued sensitivities
+    def dy(name, fn):
+        for pt in (None, True):
+            b = CaseBuilder()
+            seeds, seed_uv = fn(b)
+            out.append((f'dyad:{name}' + (':timed' if pt else ''),
+                        b.case(seeds, seed_uv=seed_uv, net=dict(print_timing=pt) if pt else None)))
+
+    def d_passthrough_later(b):       # K = K1 + K2 hands dK to both; K1 has a second consumer EARLIER in the network
+        k1, k2 = b.src((2, 3), 1), b.src((2, 3), 1)
+        g2 = b.bilin(k1, 1, scalar=True)
+        k = b.mod('add', [k1, k2], [(2, 3)], [1])
+        g1 = b.bilin(k, 2)
+        return {g1: [1, 2], g2: [-1]}, None
+    dy('add-then-later-contribution', d_passthrough_later)
+
+    def d_passthrough_second(b):      # the other contribution of K2 comes from a module between add and its consumer
+        k1, k2 = b.src((2, 3), 1), b.src((2, 3), 1)
+        k = b.mod('add', [k1, k2], [(2, 3)], [1])
+        g2 = b.bilin(k2, 2)
+        g1 = b.bilin(k, 1)
+        g3 = b.lin([k1], [(2,)], emit=[1], decomp='cols')
+        return {g1: [2], g2: [1, 1], g3: [1, -2]}, None
+    dy('add-both-inputs-get-more', d_passthrough_second)
+
+    def d_id_chain(b):
+        k1 = b.src((3, 2), 1)
+        g0 = b.bilin(k1, 2)
+        ka = b.mod('id', [k1], [(3, 2)], [1])
+        g1 = b.bilin(ka, 1)
+        kb = b.mod('id', [ka], [(3, 2)], [1])
+        g2 = b.bilin(kb, 2)
+        return {g0: [1, 0], g1: [2], g2: [1, -1]}, None
+    dy('id-chain', d_id_chain)
+
+    def d_twice(b):                   # K = K1 + K1: the same object arrives twice on one signal, plus a later one
+        k1 = b.src((2, 2), 1)
+        g0 = b.bilin(k1, 1)
+        k = b.mod('add', [k1, k1], [(2, 2)], [1])
+        g1 = b.bilin(k, 2)
+        return {g0: [3], g1: [1, 2]}, None
+    dy('same-signal-twice', d_twice)
+
+    def d_two_levels(b):              # Ka = K1 + K2, Kb = Ka + K1
+        k1, k2 = b.src((2, 3), 1), b.src((2, 3), 1)
+        ka = b.mod('add', [k1, k2], [(2, 3)], [1])
+        kb = b.mod('add', [ka, k1], [(2, 3)], [1])
+        g = b.bilin(kb, 2)
+        h = b.bilin(ka, 1)
+        return {g: [1, -1], h: [2]}, None
+    dy('two-level-add', d_two_levels)
+
+    def d_transform(b):               # new DyadCarriers made from the received one
+        k1 = b.src((2, 3), 1)
+        g0 = b.bilin(k1, 1)
+        ks = b.mod('scale', [k1], [(2, 3)], [1], c=-2)
+        kt = b.mod('transpose', [ks], [(3, 2)], [1])
+        kw = b.sandwich(kt, 2, 3, odyad=1)
+        kk = b.mod('add', [kw, k1], [(2, 3)], [1])
+        g1 = b.bilin(kk, 2)
+        g2 = b.bilin(kt, 1)
+        return {g0: [1], g1: [1, 1], g2: [-1]}, None
+    dy('scale-transpose-sandwich', d_transform)
+
+    def d_seeded(b):                  # the user seeds DyadCarriers on an output and on an intermediate matrix
+        k1, k2 = b.src((2, 2), 1), b.src((2, 2), 1)
+        g0 = b.bilin(k2, 1)
+        k = b.mod('add', [k1, k2], [(2, 2)], [1])
+        kc = b.mod('id', [k], [(2, 2)], [1])
+        g1 = b.bilin(k, 1)
+        return {g0: [1], g1: [2]}, {kc: [[[1, 2], [0, 1]], [[1, -1], [2, 0]]], k: [[[0, 1], [1, 1]]], k1: [[[1, 0], [1, 2]]]}
+    dy('dyad-seeds', d_seeded)
+
+    def d_lin(b):                     # block-matrix modules that emit / receive DyadCarriers
+        k1, x = b.src((2, 3), 1), b.src((3,))
+        y = b.lin([k1, x], [(2,)], emit=[1, 0])
+        k = b.lin([k1, x], [(3, 2)], odyad=[1], emit=[1, 0], decomp='cols')
+        kk = b.mod('add', [k, k], [(3, 2)], [1])
+        z = b.lin([k, kk], [(2,)], emit=[1, 1])
+        return {y: [1, 1], z: [1, -1]}, None
+    dy('lin-emit-receive', d_lin)
+
+    def d_slices(b):                  # DyadCarrier contributions into matrix-valued slices of a dense signal
+        u = b.src((3, 4))
+        g0 = b.bilin(b.ref(u, (S_(0, 2), S_(1, 3))), 2)
+        g1 = b.bilin(b.ref(u, (S_(None), [0, 2])), 1)
+        g2 = b.lin([u], [(2,)])
+        k = b.mod('add', [b.ref(u, (S_(1, 3), S_(0, 2))), b.ref(u, ([[0], [2]], [[3, 1]]))], [(2, 2)], [1])
+        g3 = b.bilin(k, 2)
+        g4 = b.bilin(b.ref(u, (None, 2, S_(None))), 1)
+        return {g0: [1, 2], g1: [-1], g2: [1, 1], g3: [2, 1], g4: [1]}, None
+    dy('into-2d-slices', d_slices)
+    return out
+
+
 # ----------------------------------------------------------------------------- the real network
 def make_module_classes(pym):
     def dense(w):
@@ -1173,13 +1407,24 @@ def depth(t):
 def run(ctx):
     import pymoto as pym
     classes = make_module_classes(pym)
-    ctx.rule = ('random module DAGs (2-9 modules, 1-3 sources, signal shapes () / (n<=4) / (a<=3, b<=3)) from one seeded RNG: '
-                'user block-matrix modules (incl. None-returning inputs, duplicate blocks, 2 outputs), aliasing identity/add '
-                'modules, polynomial modules (square, product), library EinSum (9 patterns) and ConcatSignal; inputs are '
-                'signals or admissible slice chains (basic, negative step, integer arrays without repeats, masks, scalar '
-                'index, nested basic, 2-D row/column/block); random nesting into inner Networks (depth <= 4, empty ones '
-                'included); seeds on random subsets of outputs/intermediates/sources.  A case is non-trivial when some seed '
-                'reaches a source through at least one module; distinct by the full case description.  Malformed stream (~10%): '
+    ctx.rule = ('fixed cases first (corpus/C02/*.json, then the deterministic stress catalogue stress_cases(): every print_timing '
+                'value x construction form on flat and nested depth>=2 networks, every index form of INDEX_CATALOGUE on 1-/2-/3-D '
+                'signals in a fan-out/fan-in network, DyadCarrier pass-through / transformation / later accumulation / seeds / '
+                'slices); then random module DAGs (2-9 modules, 1-4 sources, signal shapes () / (n<=4) / (a<=3, b<=4) / '
+                '(a<=2, b<=3, c<=3)) from one seeded RNG, 30% of them in a matrix mode biased to 2-D signals and DyadCarrier-typed '
+                'sensitivities: user block-matrix modules (incl. None-returning inputs, duplicate blocks, 2 outputs, sensitivities '
+                'handed over as DyadCarrier in row or column dyads), aliasing identity/add modules (return the received object for '
+                'one / both inputs), scale / transpose / A X B modules (new DyadCarrier from the received one), bilinear-form '
+                'modules (u^T X v, DyadCarrier sensitivities), polynomial modules (square, product), library EinSum (9 patterns) '
+                'and ConcatSignal (also passed to Network as dictionaries); inputs are signals or admissible slice chains '
+                '(1-D: basic, negative step, integer arrays/lists without repeats, masks, scalar index, nested basic, 1-tuples, '
+                'index matrices, Ellipsis, newaxis; n-D: row, row arrays/lists/masks, full masks, tuples of slices, int+slice, '
+                'all-integer, slice+advanced, int+advanced, paired index arrays, open mesh, Ellipsis, newaxis, partial tuples, '
+                'chains over views); random nesting into inner Networks (depth <= 4, empty ones included); every Network '
+                '(outer and inner) draws print_timing from {absent, False, True, 0, 0.0, 10.0, 1e9} and its construction form '
+                'from {positional, list, tuple, append, call, split append}; seeds on random subsets of outputs/intermediates/'
+                'sources (DyadCarrier seeds on DyadCarrier-typed signals).  A case is non-trivial when some seed reaches a '
+                'source through at least one module; distinct by the full case description.  Malformed stream (~10%): '
                 'out-of-protocol mini networks (wrong number of responses / sensitivities, wrong-shaped contribution to a present '
                 'sensitivity or through a slice, slice position outside the base): only the exception class is compared with '
                 'the error-dispatch model (Net.v errclass).')
@@ -1189,10 +1434,19 @@ def run(ctx):
                         'over views): hypothesis wt_ref; the two refuted statements show it is needed',
                         'modules write whole signals (SignalSlice as a module OUTPUT is not modelled)',
                         'nonlinear modules enter the model through their Jacobian at the evaluation point (computed from '
-                        'the implementation\'s states in exact integer arithmetic)']
+                        'the implementation\'s states in exact integer arithmetic)',
+                        'the model is value-level: a sensitivity is the list of its numbers (a DyadCarrier is its todense()); '
+                        'object identity / aliasing of sensitivity containers is not in the model, its absence is what the '
+                        'correspondence observes (first contribution deep-copied)',
+                        'all contributions to one whole signal use one representation: a matrix signal receives either only '
+                        'DyadCarrier or only dense contributions (DyadCarrier.__iadd__ accepts DyadCarriers only; a dense '
+                        'contribution after a DyadCarrier raises AttributeError), and DyadCarrier-typed signals are not sliced '
+                        '(DyadCarrier.__setitem__ only zeroes rows/columns); matrix-valued slices of dense signals take both',
+                        'what print_timing prints (and the clock) is not modelled; the model has the two loops of '
+                        'Network.response / Network.sensitivity selected by `print_timing is not False`']
     ctx.trusted += ['Print Assumptions: all C02 theorems are closed under the global context (no axioms)',
                     'flattening of numpy arrays / slice chains to position lists via np.arange(size).reshape(shape)[slice] '
-                    '(harness canonicalisation)']
+                    '(harness canonicalisation)', 'DyadCarrier.todense() to observe DyadCarrier-valued sensitivities']
     vlib.audit(ctx)
     if not vlib.ensure_static(ctx):
         return
@@ -1206,6 +1460,9 @@ def run(ctx):
             d = json.load(f)
         for i, c in enumerate(d['cases'] if 'cases' in d else [d]):
             cases.append((f'corpus:{os.path.basename(p)}:{i}', c))
+    for name, c in stress_cases():
+        cases.append(('stress:' + name, c))
+    ctx.count('fixed-cases(corpus+stress)', len(cases))
     replaying = bool(getattr(ctx, 'replay', None))
     if replaying:       # re-execute exactly the recorded case (same name, so that the violation record is identical)
         with open(ctx.replay if os.path.isabs(ctx.replay) else os.path.join(vlib.ROOT, ctx.replay)) as f:
